@@ -245,6 +245,48 @@ def r5_shared_tokenizer(ctx):
             yield o
 
 
+def r6_buffer_per_file(ctx):
+    """each input file is normalised into its own scratch buffer: the buffer that is written to and copied out was
+    created inside the iteration for that file (a buffer shared between files keeps the tail of a longer earlier
+    output)"""
+    fn = ctx.func('scripts.x12norm', 'main')
+    g = ctx.cfg(fn)
+    from ..cfg import reaching_defs
+    IN, DEFS = reaching_defs(g)
+    loops = [n for n in ast.walk(fn) if isinstance(n, ast.For) and 'iglob' in norm(n.iter)]
+    if len(loops) != 1:
+        raise AnalysisError('x12norm.main: per-file loop not found')
+    lp = loops[0]
+    inside = set()
+    for nd in g.nodes:
+        p_ = nd.stmt
+        while p_ is not None:
+            if p_ is lp:
+                inside.add(nd.id)
+                break
+            p_ = getattr(p_, '_parent', None)
+    n = 0
+    for nd in g.nodes:
+        if nd.id not in inside:
+            continue
+        for x in g.walk_exprs(nd):
+            if isinstance(x, ast.Call) and isinstance(x.func, ast.Attribute) and x.func.attr in ('write', 'read', 'seek') \
+                    and isinstance(x.func.value, ast.Name):
+                nm = x.func.value.id
+                defs = (IN.get(nd.id) or {}).get(nm, frozenset())
+                created = [d for d in defs if d != -1 and any(v is not None and not isinstance(v, tuple) and isinstance(v, ast.Call)
+                                                              and 'TemporaryFile' in norm(v) for k_, v in DEFS[d] if k_ == nm)]
+                if not created:
+                    continue
+                n += 1
+                ok = all(d in inside for d in defs)
+                yield Ob('scripts.x12norm:main %s.%s uses the buffer created for this file' % (nm, x.func.attr), ok, ctx.floc(fn, x),
+                         '' if ok else 'the buffer reaching this call is created outside the per-file loop: a second input file is written over the '
+                         'first one\'s output and its copy-out includes the stale tail')
+    if n < 2:
+        raise AnalysisError('x12norm.main: uses of the scratch buffer not found')
+
+
 RULES = [
     Rule('C20.R1', 'input is read by path through X12Reader, which opens it in a valid text read mode', r1_open_mode, floor=2),
     Rule('C20.R2', 'every output option receives the buffer (must-pass-through)', r2_outputs, floor=3),
@@ -252,4 +294,5 @@ RULES = [
     Rule('C20.R3b', 'shared with C04.R1: the reader counters the repair reads are reset/incremented where the envelope says', r3b_reader_counters, floor=37),
     Rule('C20.R4', 'segments re-formatted with source delimiters, once each, eol = LF or empty', r4_format, floor=3),
     Rule('C20.R5', 'shared with C01.R3/R5: tokenizer loop exits, buffer conservation and strip set', r5_shared_tokenizer, floor=6),
+    Rule('C20.R6', 'the scratch buffer is created per input file', r6_buffer_per_file, floor=2),
 ]
